@@ -127,6 +127,7 @@ func VerifH_C12_plugin_ordered() {
 // Scenario B: Close or ForceClose requested at any position of the ordered input sequence.
 func VerifH_C12_plugin_close_anytime() {
 	e := verifNewEnv(verifrt.Choice("hasCancel", 2) == 1)
+	e.deployModes = 4 // including a deployment that completes only after the close request
 	r := verifStart(e)
 	given := map[string]bool{}
 	at := verifrt.Choice("closeAt", 4)
